@@ -6,6 +6,10 @@ use simcore::Rng;
 
 pub const MANIFEST: &str = "[project]\nauthors = [\"sim\"]\nentry = \"lib.sw\"\nlicense = \"Apache-2.0\"\nname = \"simlib\"\nimplicit-std = false\n";
 
+pub fn helper_text(version: i32) -> String {
+    format!("library;\n\npub fn helper_v{version}() -> u64 {{ 3 }}\n")
+}
+
 pub fn lib_text(version: i32) -> String {
     format!("library;\n\n// the marker function carries the document version\npub fn marker_v{version}() -> u64 {{ {version} }}\npub fn other() -> u64 {{ 2 }}\n")
 }
@@ -18,11 +22,16 @@ fn gen(rng: &mut Rng, _sub: u64) -> Workload {
         files[0].1 = format!("library;\n\n// the marker function carries the document version\npub fn marker_v1() -> u64 {{ 1 }}\npub fn other() -> u64 {{ 2 }}\npub mod helper;\n");
         // `mod` must come first in Sway: keep the marker line index stable by putting it on top
         files[0].1 = "library;\npub mod helper;\n// the marker function carries the document version\npub fn marker_v1() -> u64 { 1 }\npub fn other() -> u64 { 2 }\n".to_string();
-        files.push(("src/helper.sw".to_string(), "library;\n\npub fn helper_fn() -> u64 { 3 }\n".to_string()));
+        files.push(("src/helper.sw".to_string(), helper_text(1)));
     }
     let mut events = vec![Ev::Open { doc: 0 }];
     let n = rng.range(2, 8);
     let mut version = 1;
+    let mut helper_version = 1;
+    let edit_helper = two_files && rng.chance(1, 2);
+    if edit_helper {
+        events.push(Ev::Open { doc: 1 });
+    }
     let mix = rng.below(3); // swarm: change-heavy / request-heavy / balanced
     for _ in 0..n {
         let k = rng.below(10);
@@ -32,6 +41,11 @@ fn gen(rng: &mut Rng, _sub: u64) -> Workload {
             _ => if k < 5 { 0 } else if k < 7 { 1 } else { 2 },
         };
         match pick {
+            0 if edit_helper && rng.chance(1, 3) => {
+                // an edit to the second document (its own version counter, its own marker)
+                helper_version += 1;
+                events.push(Ev::Change { doc: 1, version: helper_version, changes: vec![Change { range: None, text: helper_text(helper_version) }] });
+            }
             0 => {
                 version += 1;
                 let line = format!("pub fn marker_v{version}() -> u64 {{ {version} }}\n");
@@ -53,11 +67,15 @@ fn gen(rng: &mut Rng, _sub: u64) -> Workload {
 }
 
 fn opts(rng: &mut Rng, _sub: u64) -> SimOpts {
-    SimOpts { io_enabled: rng.chance(3, 4), step_cap: 20_000, max_in_flight: 4, gate_first: !rng.chance(1, 6), observe_all: false, reference: false }
+    SimOpts { io_enabled: rng.chance(3, 4), step_cap: 20_000, max_in_flight: 4, gate_first: rng.chance(1, 2), observe_all: true, reference: false }
 }
 
 pub fn last_version(wl: &Workload) -> i32 {
-    wl.events.iter().filter_map(|e| if let Ev::Change { version, .. } = e { Some(*version) } else { None }).max().unwrap_or(1)
+    wl.events.iter().filter_map(|e| if let Ev::Change { doc: 0, version, .. } = e { Some(*version) } else { None }).max().unwrap_or(1)
+}
+
+fn last_helper_version(wl: &Workload) -> Option<i32> {
+    wl.events.iter().filter_map(|e| if let Ev::Change { doc: 1, version, .. } = e { Some(*version) } else { None }).max()
 }
 
 fn judge(wl: &Workload, r: &SimResult) -> Option<(String, String)> {
@@ -96,6 +114,18 @@ fn judge(wl: &Workload, r: &SimResult) -> Option<(String, String)> {
         Some(t) if &t == client_text => {}
         other => return Some(("b".into(), format!("at quiescence the file the compiler reads differs from the client's text (client has marker_v{want}; file: {})", other.map(|t| t.lines().nth(MARKER_LINE as usize).unwrap_or("<short>").to_string()).unwrap_or("<missing>".into())))),
     }
+    // the second document, if it was edited
+    if let Some(hv) = last_helper_version(wl) {
+        let syms = r.obs.probe_symbols.get(1).cloned().flatten().unwrap_or_default();
+        if !syms.contains(&format!("\"helper_v{hv}\"")) {
+            let seen: Vec<i32> = (1..=hv).filter(|v| syms.contains(&format!("\"helper_v{v}\""))).collect();
+            return Some(("b".into(), format!("at quiescence documentSymbol of the second document does not show its latest version's helper_v{hv} (visible: {seen:?})")));
+        }
+        match r.obs.final_temp_file.get(1).cloned().flatten() {
+            Some(t) if t == m.docs[1].text => {}
+            _ => return Some(("b".into(), format!("at quiescence the second document's file differs from the client's text (helper_v{hv})"))),
+        }
+    }
     None
 }
 
@@ -103,6 +133,10 @@ fn sig(wl: &Workload, _r: &SimResult) -> Vec<String> {
     let mut s = vec![];
     for e in &wl.events {
         s.push(format!("ev:{}", match e { Ev::Open { .. } => "didOpen", Ev::Change { .. } => "didChange", Ev::Save { .. } => "didSave", Ev::Req { .. } => "request", Ev::Close { .. } => "didClose", Ev::Deleted { .. } => "deleted" }));
+    }
+    let docs: std::collections::BTreeSet<usize> = wl.events.iter().filter_map(|e| if let Ev::Change { doc, .. } = e { Some(*doc) } else { None }).collect();
+    if docs.len() >= 2 {
+        s.push("edits-multiple-documents".into());
     }
     s.sort();
     s.dedup();
@@ -139,7 +173,7 @@ fn probes(wl: &Workload, r: &SimResult) -> Vec<String> {
 }
 
 fn droppable(e: &Ev) -> bool {
-    !matches!(e, Ev::Open { .. })
+    !matches!(e, Ev::Open { doc: 0 })
 }
 
 fn well_formed(wl: &Workload) -> bool {
